@@ -72,8 +72,20 @@ pub fn relocs_build(rest: &str) -> String {
 	format!("ok {} flat=[{}]", hex(&out), flat.join(","))
 }
 
+/// fmt_cstr <hex>  (bytes of the string without the NUL; a NUL is appended)
+pub fn fmt_cstr(rest: &str) -> String {
+	let mut data = unhex(rest.trim());
+	data.push(0);
+	let g = Guarded::new(&data, 0, true);
+	match pelite::util::CStr::from_bytes(g.bytes()) {
+		Some(c) => format!("ok dbg={} disp={}", hex(format!("{:?}", c).as_bytes()), hex(format!("{}", c).as_bytes())),
+		None => "none".to_string(),
+	}
+}
+
 pub fn dispatch(_st: &mut crate::State, fam: &str, rest: &str) -> Option<String> {
 	Some(match fam {
+		"fmt_cstr" => fmt_cstr(rest),
 		"strings" => strings(rest),
 		"relocs_raw" => relocs_raw(rest),
 		"relocs_build" => relocs_build(rest),
